@@ -417,9 +417,17 @@ impl PqMapper<RelationExpr, RelationExpr, (), ()> for SortingInference<'_> {
 
         if !self.main_relation {
             // if this is a CTE, make sure that its SELECT includes the
-            // columns from the sort
+            // columns from the sort: of the sorts that are emitted in it (in front
+            // of a Take or a DISTINCT ON) and of the sorting it hands to its consumers
+            let mut sort_columns = result
+                .iter()
+                .filter_map(|x| x.as_sort())
+                .flatten()
+                .cloned()
+                .collect_vec();
+            sort_columns.extend(sorting.iter().cloned());
             let select = result.iter_mut().find_map(|x| x.as_select_mut()).unwrap();
-            for column_sort in &sorting {
+            for column_sort in &sort_columns {
                 let cid = column_sort.column;
                 let is_selected = select.contains(&cid);
                 if !is_selected {
